@@ -196,3 +196,50 @@ func ParamDeps(v ssa.Value) map[*ssa.Parameter]bool {
 	walk(v, 0)
 	return out
 }
+
+// DeepSourcesFields is DeepSources (through callers) that also looks through
+// struct fields: a value loaded from field T.f is replaced by every value any
+// module function stores into T.f (type-based, flow-insensitive), recursively.
+// Loads that have no store in the module stay as sources.
+func (p *Prog) DeepSourcesFields(v ssa.Value, depth int) []ssa.Value {
+	var out []ssa.Value
+	seen := map[ssa.Value]bool{}
+	seenField := map[string]bool{}
+	var walk func(v ssa.Value, d int)
+	walk = func(v ssa.Value, d int) {
+		for _, s := range p.DeepSources(v, 3, true) {
+			if seen[s] {
+				continue
+			}
+			seen[s] = true
+			if u, ok := s.(*ssa.UnOp); ok && u.Op == token.MUL && d > 0 {
+				if fa, ok := u.X.(*ssa.FieldAddr); ok {
+					key := TypeField(fa)
+					if seenField[key] {
+						continue
+					}
+					seenField[key] = true
+					n := 0
+					for _, fn := range p.Funcs {
+						EachInstr(fn, func(in ssa.Instruction) {
+							st, ok := in.(*ssa.Store)
+							if !ok {
+								return
+							}
+							if fa2, ok := st.Addr.(*ssa.FieldAddr); ok && TypeField(fa2) == key {
+								n++
+								walk(st.Val, d-1)
+							}
+						})
+					}
+					if n > 0 {
+						continue
+					}
+				}
+			}
+			out = append(out, s)
+		}
+	}
+	walk(v, depth)
+	return out
+}
